@@ -428,7 +428,7 @@ class liouville_pathway(UnitsManaged):
         """ Returns info on the transition occuring on the n-th interaction
         
         """
-        return self.side[n], self.transitions[n]
+        return self.sides[n], self.transitions[n]
     
     def orientational_averaging(self,lab):
         """ Orientational averaging
